@@ -1,3 +1,246 @@
 import TlsModel.Proto
-/- driver stub for C08: replaced when the model exists -/
-def main : IO Unit := Tls.protoMain (fun _ => none)
+import TlsModel.ErrPath
+/-
+  Driver for C08 (line protocol, tokens `key=value` after the op).
+
+    err kind=<name> [a=<nat>] [b=<nat>] closed=0|1 session=-|0|1 handler=hs|rd
+        -> wire=<level>.<desc>,... closed=0|1 session=-|0|1 exc=<family>[:args]
+    getmsg v13= exp=<csv> sec=<csv> client= open= mbox= hbs= hbr= dccs=<hex> dalert=<hex> dhs=<hex> in=<inputs>
+        inputs: `;`-separated, each  r:<type>:<hex>:<ssl2 0|1>  or  b:<kind>
+        -> <outcome> iters=<n> reads=<n> extracts=<n> warnings=<n> rest=<n> buf=<ccs>.<alert>.<hs>
+    ch  pe= cv= se= ce= nc= sv= sa= alpn= sni= ems= ecpf= pha= pm= psk= sg= ks= ed= hb= rsl= ct= min= vers=
+        -> alert:<d>:<message> | pass | escape:<...>
+    sh  pe= v= sv= hrr= sid= co= cto= cn= tack= npn= ems= alpn= afo= hb= rsl= ks= psk=
+        cmin= cmax= cvers= rems= stack= snpn= salpn= uhb= hbcb= shares= pskn=
+        -> same
+    decomp declared= clen= known= avail= complete= corrupt= [old=1]  -> accepted=0|1 produced=<n> alert=<d|->
+  Extension values: `-` absent, `D` duplicated, otherwise the value (see the parsers below).
+-/
+open Tls Tls.ErrPath
+
+def kv (toks : List String) : List (String × String) :=
+  toks.filterMap fun t =>
+    match t.splitOn "=" with
+    | [k, v] => some (k, v)
+    | _ => none
+
+def look (m : List (String × String)) (k : String) : Option String := (m.find? (·.1 == k)).map (·.2)
+
+def natOf (m : List (String × String)) (k : String) : Option Nat := (look m k).bind String.toNat?
+def boolOf (m : List (String × String)) (k : String) : Option Bool :=
+  match look m k with
+  | some "1" => some true
+  | some "0" => some false
+  | _ => none
+
+def csvNats (s : String) : Option (List Nat) :=
+  if s == "" || s == "-" then some [] else (s.splitOn ",").mapM String.toNat?
+
+/-- `N` = None, `L<csv>` = list -/
+def optList (s : String) : Option (Option (List Nat)) :=
+  if s == "N" then some none
+  else if s.startsWith "L" then (csvNats (s.drop 1).toString).map some
+  else none
+
+def extOf {α : Type} (s : String) (f : String → Option α) : Option (Ext α) :=
+  if s == "-" then some .absent
+  else if s == "D" then some .dup
+  else (f s).map .present
+
+def bool01 (s : String) : Option Bool := if s == "1" then some true else if s == "0" then some false else none
+
+def hostKind (s : String) : Option HostKind :=
+  match s with
+  | "e" => some .empty | "a" => some .nonAscii | "i" => some .invalidDns | "o" => some .ok
+  | _ => none
+
+def sniOf (s : String) : Option Sni :=
+  if s == "B" then some ⟨true, []⟩
+  else if s == "L" then some ⟨false, []⟩
+  else do
+    let names ← (s.splitOn ",").mapM fun n =>
+      match n.splitOn "." with
+      | [t, k] => do pure ((← t.toNat?), (← hostKind k))
+      | _ => none
+    pure ⟨false, names⟩
+
+def pskOf (s : String) : Option Psk :=
+  match s.splitOn "|" with
+  | [a, b, c] => do pure ⟨← optList a, ← optList b, ← bool01 c⟩
+  | _ => none
+
+def optNat (s : String) : Option (Option Nat) := if s == "N" then some none else s.toNat?.map some
+
+def escOut : Escape → String
+  | .py e site => "escape:py:" ++ e.name ++ ":" ++ site.replace " " "_"
+  | .dupExtension => "escape:dup"
+  | .protoNoAlert site => "escape:proto:" ++ site.replace " " "_"
+
+def verdictOut : Except Escape Verdict → String
+  | .error e => escOut e
+  | .ok .pass => "pass"
+  | .ok (.alert d m) => "alert:" ++ toString d ++ ":" ++ m.replace " " "_"
+
+def chOf (m : List (String × String)) : Option (SrvSettings × CH) := do
+  let e := fun k => look m k
+  let h : CH :=
+    { parseError := ← boolOf m "pe", clientVersion := ← natOf m "cv", suitesEmpty := ← boolOf m "se",
+      compressionEmpty := ← boolOf m "ce", hasNullCompression := ← boolOf m "nc",
+      supportedVersions := ← extOf (← e "sv") optList,
+      sigAlgs := ← extOf (← e "sa") optNat,
+      alpn := ← extOf (← e "alpn") (fun s => if s.startsWith "L" then csvNats (s.drop 1).toString else none),
+      sni := ← extOf (← e "sni") sniOf,
+      ems := ← extOf (← e "ems") bool01,
+      ecPointFormats := ← extOf (← e "ecpf") optList,
+      pha := ← extOf (← e "pha") bool01,
+      pskModes := ← extOf (← e "pm") optList,
+      psk := ← extOf (← e "psk") pskOf,
+      supGroups := ← extOf (← e "sg") optList,
+      keyShare := ← extOf (← e "ks") optList,
+      earlyData := ← extOf (← e "ed") bool01,
+      heartbeat := ← extOf (← e "hb") String.toNat?,
+      recordSizeLimit := ← extOf (← e "rsl") optNat,
+      certType := ← extOf (← e "ct") optList }
+  let vers ← csvNats (← e "vers")
+  pure (⟨← natOf m "min", vers⟩, h)
+
+def shOf (m : List (String × String)) : Option (CliState × SH) := do
+  let e := fun k => look m k
+  let h : SH :=
+    { parseError := ← boolOf m "pe", serverVersion := ← natOf m "v",
+      supportedVersions := ← extOf (← e "sv") String.toNat?,
+      hrrCipherMismatch := ← boolOf m "hrr", sessionIdEchoed := ← boolOf m "sid",
+      cipherOffered := ← boolOf m "co", certTypeOffered := ← boolOf m "cto", compressionNull := ← boolOf m "cn",
+      tack := ← boolOf m "tack", npn := ← boolOf m "npn",
+      ems := ← extOf (← e "ems") (fun _ => some ()),
+      alpn := ← extOf (← e "alpn") (fun s => if s.startsWith "L" then csvNats (s.drop 1).toString else none),
+      alpnFirstOffered := ← boolOf m "afo",
+      heartbeat := ← extOf (← e "hb") String.toNat?,
+      recordSizeLimit := ← extOf (← e "rsl") optNat,
+      keyShare := ← extOf (← e "ks") optNat,
+      psk := ← extOf (← e "psk") optNat }
+  let c : CliState :=
+    { minVersion := ← natOf m "cmin", maxVersion := ← natOf m "cmax", versions := ← csvNats (← e "cvers"),
+      requireEms := ← boolOf m "rems", sentTack := ← boolOf m "stack", sentNpn := ← boolOf m "snpn",
+      sentAlpn := ← boolOf m "salpn", useHeartbeat := ← boolOf m "uhb", heartbeatCallback := ← boolOf m "hbcb",
+      sharesSent := ← optList (← e "shares"), pskIdsSent := ← optNat (← e "pskn") }
+  pure (c, h)
+
+def pyOf (s : String) : Option PyExc :=
+  match s with
+  | "TypeError" => some .typeError | "AttributeError" => some .attributeError | "IndexError" => some .indexError
+  | "KeyError" => some .keyError | "ValueError" => some .valueError | "AssertionError" => some .assertionError
+  | "UnicodeDecodeError" => some .unicodeError
+  | _ => none
+
+def kindOf (name : String) (a b : Nat) (py : Option PyExc) : Option ErrKind :=
+  match name with
+  | "recUnexpectedMessage" => some .recUnexpectedMessage
+  | "recRecordOverflow" => some .recRecordOverflow
+  | "recIllegalParameter" => some .recIllegalParameter
+  | "recDecryptionFailed" => some .recDecryptionFailed
+  | "recBadRecordMac" => some .recBadRecordMac
+  | "recEmptyNonAppData" => some .recEmptyNonAppData
+  | "recUnknownContentType" => some .recUnknownContentType
+  | "msgIllegalParameter" => some .msgIllegalParameter
+  | "msgBadCertificate" => some .msgBadCertificate
+  | "msgSyntaxError" => some .msgSyntaxError
+  | "invalidCcs13" => some .invalidCcs13
+  | "interleaved13" => some .interleaved13
+  | "unexpectedRecordType" => some .unexpectedRecordType
+  | "heartbeatNotAllowed" => some .heartbeatNotAllowed
+  | "ssl2NotClientHello" => some .ssl2NotClientHello
+  | "ssl2ClientHelloNotExpected" => some .ssl2ClientHelloNotExpected
+  | "unexpectedHandshakeType" => some .unexpectedHandshakeType
+  | "notAligned13" => some .notAligned13
+  | "semantic" => some (.semantic a)
+  | "remoteAlert" => some (.remoteAlert a b)
+  | "abruptClose" => some .abruptClose
+  | "socketError" => some .socketError
+  | "escaped" => py.map .escaped
+  | "internalNoAlert" => some .internalNoAlert
+  | _ => none
+
+def kindOut : ErrKind → String
+  | .recUnexpectedMessage => "recUnexpectedMessage" | .recRecordOverflow => "recRecordOverflow"
+  | .recIllegalParameter => "recIllegalParameter" | .recDecryptionFailed => "recDecryptionFailed"
+  | .recBadRecordMac => "recBadRecordMac" | .recEmptyNonAppData => "recEmptyNonAppData"
+  | .recUnknownContentType => "recUnknownContentType" | .msgIllegalParameter => "msgIllegalParameter"
+  | .msgBadCertificate => "msgBadCertificate" | .msgSyntaxError => "msgSyntaxError"
+  | .invalidCcs13 => "invalidCcs13" | .interleaved13 => "interleaved13"
+  | .unexpectedRecordType => "unexpectedRecordType" | .heartbeatNotAllowed => "heartbeatNotAllowed"
+  | .ssl2NotClientHello => "ssl2NotClientHello" | .ssl2ClientHelloNotExpected => "ssl2ClientHelloNotExpected"
+  | .unexpectedHandshakeType => "unexpectedHandshakeType" | .notAligned13 => "notAligned13"
+  | .semantic d => "semantic:" ++ toString d
+  | .remoteAlert l d => "remoteAlert:" ++ toString l ++ ":" ++ toString d
+  | .abruptClose => "abruptClose" | .socketError => "socketError"
+  | .escaped e => "escaped:" ++ e.name | .internalNoAlert => "internalNoAlert"
+
+def excOut : Exc → String
+  | .localAlert d => "local_alert:" ++ toString d
+  | .remoteAlert l d => "remote_alert:" ++ toString l ++ ":" ++ toString d
+  | .abruptClose => "abrupt_close" | .socketError => "socket_error"
+  | .py e => "python:" ++ e.name | .internal => "internal"
+
+def effOut (e : Effects) : String :=
+  let w := if e.wire.isEmpty then "-" else ",".intercalate (e.wire.map fun p => toString p.1 ++ "." ++ toString p.2)
+  let s := match e.conn.session with | none => "-" | some true => "1" | some false => "0"
+  "wire=" ++ w ++ " closed=" ++ (if e.conn.closed then "1" else "0") ++ " session=" ++ s ++ " exc=" ++ excOut e.raised
+
+def inputOf (s : String) : Option Input :=
+  match s.splitOn ":" with
+  | ["r", t, hex, s2] => do pure (.record (← t.toNat?) (← ofHex hex) (← bool01 s2))
+  | ["b", k] => (kindOf k 0 0 none).map .bad
+  | _ => none
+
+def outcomeOut : Outcome → String
+  | .delivered t d => "delivered:" ++ toString t ++ ":" ++ hexOut d
+  | .failed k => "failed:" ++ kindOut k
+  | .blocked => "blocked"
+  | .outOfFuel => "outOfFuel"
+
+def handle : List String → Option String
+  | "err" :: rest => do
+    let m := kv rest
+    let k ← kindOf (← look m "kind") ((natOf m "a").getD 0) ((natOf m "b").getD 0) ((look m "py").bind pyOf)
+    let closed ← boolOf m "closed"
+    let session ← match look m "session" with
+      | some "-" => some none | some "1" => some (some true) | some "0" => some (some false) | _ => none
+    let c : Conn := ⟨closed, session⟩
+    match look m "handler" with
+    | some "hs" => some (effOut (onError k c))
+    | some "rd" => some (effOut (onErrorRead k c))
+    | some "inner" => some (effOut (onErrorInner k c))
+    | _ => none
+  | "getmsg" :: rest => do
+    let m := kv rest
+    let cfg : Cfg :=
+      { v13 := ← boolOf m "v13", expected := ← csvNats (← look m "exp"), secondary := ← csvNats (← look m "sec"),
+        client := ← boolOf m "client", sessionOpen := ← boolOf m "open", middlebox := ← boolOf m "mbox",
+        hbSupported := ← boolOf m "hbs", hbCanReceive := ← boolOf m "hbr" }
+    let d : Defrag := ⟨← ofHex (← look m "dccs"), ← ofHex (← look m "dalert"), ← ofHex (← look m "dhs")⟩
+    let ins ← look m "in"
+    let inp ← if ins == "-" then some [] else (ins.splitOn ";").mapM inputOf
+    let r := getMsg cfg d inp
+    some (outcomeOut r.outcome ++ " iters=" ++ toString r.iters ++ " reads=" ++ toString r.reads ++
+      " extracts=" ++ toString r.extracts ++ " warnings=" ++ toString r.warnings ++ " rest=" ++ toString r.rest.length ++
+      " buf=" ++ toString r.d.ccs.length ++ "." ++ toString r.d.alert.length ++ "." ++ toString r.d.hs.length)
+  | "ch" :: rest => do
+    let (s, h) ← chOf (kv rest)
+    some (verdictOut (chChecks s h))
+  | "ctchk" :: rest => do
+    let (s, h) ← chOf (kv rest)
+    some (verdictOut (certTypeCheck s h))
+  | "sh" :: rest => do
+    let (c, h) ← shOf (kv rest)
+    some (verdictOut (shChecks c h))
+  | "decomp" :: rest => do
+    let m := kv rest
+    let z : ZStream := ⟨← natOf m "avail", ← boolOf m "complete", ← boolOf m "corrupt"⟩
+    let f := if (look m "old") == some "1" then decompressOld else decompress
+    let r := f (← natOf m "declared") (← natOf m "clen") (← boolOf m "known") z
+    some ("accepted=" ++ (if r.accepted then "1" else "0") ++ " produced=" ++ toString r.produced ++
+      " alert=" ++ (match r.alert with | some d => toString d | none => "-"))
+  | _ => none
+
+def main : IO Unit := protoMain handle
